@@ -165,11 +165,47 @@ snap_statics (void)
   for (int i = 0; i < nsyms; i++)
     raw_copy (syms[i].snap, (const unsigned char *) (libbase + syms[i].off), syms[i].size);
 }
+/* libc functions that POSIX does not require to be thread-safe (they keep their result or state in static storage
+   inside libc, which no snapshot of the library's own segments sees): a call made by the library during an API call
+   is part of that call's write footprint, reported in "sw" as "libc:<name>".  */
+static unsigned long libc_nr_hit;
+static const char *const libc_nr_name[] = { "l64a", "strtok", "rand", "random", "drand48", "lrand48", "mrand48", "strerror", "localtime",
+                                            "gmtime", "asctime", "ctime", "ecvt", "fcvt", "srand", "srandom", "a64l", "strsignal" };
+static int in_lib;
+#define NR_WRAP(idx, ret, name, params, args) \
+  ret name params { static ret (*real) params; if (!real) real = (ret (*) params) dlsym (RTLD_NEXT, #name); \
+                    if (in_lib) libc_nr_hit |= 1UL << (idx); return real args; }
+struct tm;
+NR_WRAP (0, char *, l64a, (long v), (v))
+NR_WRAP (1, char *, strtok, (char *s, const char *d), (s, d))
+NR_WRAP (2, int, rand, (void), ())
+NR_WRAP (3, long, random, (void), ())
+NR_WRAP (4, double, drand48, (void), ())
+NR_WRAP (5, long, lrand48, (void), ())
+NR_WRAP (6, long, mrand48, (void), ())
+NR_WRAP (7, char *, strerror, (int e), (e))
+NR_WRAP (8, struct tm *, localtime, (const long *tp), (tp))
+NR_WRAP (9, struct tm *, gmtime, (const long *tp), (tp))
+NR_WRAP (10, char *, asctime, (const struct tm *tp), (tp))
+NR_WRAP (11, char *, ctime, (const long *tp), (tp))
+NR_WRAP (12, char *, ecvt, (double v, int n, int *d, int *s), (v, n, d, s))
+NR_WRAP (13, char *, fcvt, (double v, int n, int *d, int *s), (v, n, d, s))
+NR_WRAP (14, void, srand, (unsigned s), (s))
+NR_WRAP (15, void, srandom, (unsigned s), (s))
+NR_WRAP (16, long, a64l, (const char *s), (s))
+NR_WRAP (17, char *, strsignal, (int s), (s))
+
 static void
 emit_statics_written (void)
 {
   int first = 1;
   fprintf (out, ",\"sw\":[");
+  for (unsigned i = 0; i < sizeof libc_nr_name / sizeof libc_nr_name[0]; i++)
+    if (libc_nr_hit & (1UL << i))
+      {
+        fprintf (out, first ? "\"libc:%s\"" : ",\"libc:%s\"", libc_nr_name[i]);
+        first = 0;
+      }
   for (int i = 0; i < nsyms; i++)
     if (raw_differs (syms[i].snap, (const unsigned char *) (libbase + syms[i].off), syms[i].size))
       {
@@ -238,7 +274,7 @@ scan_region (const unsigned char *p, size_t n)
 }
 
 /* ------------------------------------------------------------------ interposers */
-static int in_lib;                 /* a library call is running */
+/* (in_lib, "a library call is running", is declared above, before the libc wrappers) */
 static int ncfe, naux, auxdrop;    /* primitive events of the current call */
 static int req_no, fault_at, fault_at2; /* allocator/mapping request counter and fault schedule */
 static int n_wipes;
@@ -348,6 +384,7 @@ calloc (size_t a, size_t b)
     memset (p, 0, a * b);
   return p;
 }
+static int realloc_inplace;      /* command ramode: 1 = a block that is large enough is resized in place */
 void *
 realloc (void *old, size_t n)
 {
@@ -378,7 +415,16 @@ realloc (void *old, size_t n)
       errno = ENOMEM;
       return 0;
     }
-  /* always move, and poison the old block, so stale pointers are detectable */
+  if (realloc_inplace && old && l->oldsize >= n)
+    {
+      /* the other thing an allocator may do: the block is big enough already and stays where it is, contents intact */
+      l->newp = old;
+      for (int i = 0; i < MAXLIVE; i++)
+        if (livetab[i].p == old && livetab[i].kind == 0)
+          livetab[i].size = l->oldsize;
+      return old;
+    }
+  /* (default) always move, and poison the old block, so stale pointers are detectable */
   void *p = __libc_malloc (n ? n : 1);
   if (!p)
     return 0;
@@ -886,7 +932,7 @@ tramp (void)
 static void
 run_call (void (*fn) (void))
 {
-  ncfe = 0; naux = 0; auxdrop = 0;
+  ncfe = 0; naux = 0; auxdrop = 0; libc_nr_hit = 0;
   req_no = 0; nled = 0; n_wipes = 0; wiped_bytes = 0; leak_free = leak_unmap = 0; bad_free = 0;
   stack_hits = 0;
   snap_statics ();
@@ -965,9 +1011,11 @@ static void call_gensalt (void)
 }
 static void call_gensalt_ra (void) { errno = ein (); r_ret = f_gensalt_ra (a_prefix, a_count, a_rb, a_nrbytes); r_errno = errno; ein_last = r_errno; }
 static void call_checksalt (void) { errno = ein (); r_int = f_checksalt (a_set); r_errno = errno; ein_last = r_errno; }
-static void call_setkey_r (void) { errno = ein (); f_setkey_r (a_key, a_data); r_errno = errno; ein_last = r_errno; }
+/* (the key array belongs to the caller: it is overwritten as soon as the call has returned -- a schedule must not
+   be derived from it later) */
+static void call_setkey_r (void) { errno = ein (); f_setkey_r (a_key, a_data); r_errno = errno; ein_last = r_errno; memset (a_key, 0x5a, sizeof a_key); }
 static void call_encrypt_r (void) { errno = ein (); f_encrypt_r (a_block, a_edflag, a_data); r_errno = errno; ein_last = r_errno; }
-static void call_setkey (void) { errno = ein (); f_setkey (a_key); r_errno = errno; ein_last = r_errno; }
+static void call_setkey (void) { errno = ein (); f_setkey (a_key); r_errno = errno; ein_last = r_errno; memset (a_key, 0x5a, sizeof a_key); }
 static void call_encrypt (void) { errno = ein (); f_encrypt (a_block, a_edflag); r_errno = errno; ein_last = r_errno; }
 
 /* ------------------------------------------------------------------ compression-function events (XCRYPT_VERIF hook) */
@@ -1230,6 +1278,8 @@ main (int argc, char **argv)
           snprintf (rs_sched, sizeof rs_sched, "%s", rs_on && strcmp (t0, "=") ? t0 : "");
           rs_pos = 0;
         }
+      else if (!strcmp (cmd, "ramode"))
+        realloc_inplace = atoi (t0);
       else if (!strcmp (cmd, "hugeok"))
         hugeok = atoi (t0);
       else if (!strcmp (cmd, "errno"))
@@ -1380,6 +1430,14 @@ main (int argc, char **argv)
           livesz = a_h->data ? a_h->size : -1;
 #endif
           fprintf (out, ",\"blocksize\":%d", livesz);
+          {                       /* the application fields (setting, input) of the block the handle owns now: all zero? */
+            int appzero = 1;
+            if (a_h->data && livesz >= CD_SIZE)
+              for (size_t i = OFF_SETTING; i < OFF_RESERVED; i++)
+                if (((unsigned char *) a_h->data)[i])
+                  appzero = 0;
+            fprintf (out, ",\"appzero\":%d", appzero);
+          }
           if (a_h->data && livesz >= CD_SIZE)
             emit_obj_projection (a_h->data, pre_img, 0);
           else
